@@ -80,6 +80,7 @@ def gen_history(st, cfg):
 
 def run_seq(rc, ops):
     e = rc.eliot
+    cfg = rc.cfg
     taps = {}
     expect = {}
     buffer = []
@@ -87,13 +88,28 @@ def run_seq(rc, ops):
     state = {"any": False}
     g = {}
 
+    class ReTap(Tap):
+        """A first-call destination that registers one more destination the first time it is called."""
+        armed = False
+
+        def __call__(self_, message):
+            Tap.__call__(self_, message)
+            if self_.armed:
+                self_.armed = False
+                rc.probe("destination_added_from_inside_a_destination")
+                state["extra_at"] = state["logged"]
+                e.add_destinations(tap("extra"))
+
     def tap(i):
         if i not in taps:
-            taps[i] = Tap(rc, "d%d" % i, deep=True)
+            taps[i] = (ReTap if (i == state.get("retap")) else Tap)(rc, "d%s" % i, deep=True)
             expect[i] = []
         return taps[i]
 
     def model_log(n):
+        state["logged"] = state.get("logged", 0) + 1
+        if "extra_reg" in state:
+            expect["extra"].append((n, dict(g)))
         if not state["any"]:
             buffer.append(n)
             while len(buffer) > 1000:
@@ -114,7 +130,15 @@ def run_seq(rc, ops):
                     e.log_message(message_type="c12", nid=n)
                 rc.probe("bulk_over_1000")
             elif k == "add":
+                if not state["any"] and buffer and cfg.get("reentrant_add"):
+                    # its first call happens inside the hand-over: the destination it registers there was
+                    # added later than every buffered message and must get none of them
+                    state["retap"] = op[1][0]
                 ds = [tap(i) for i in op[1]]
+                if state.get("retap") is not None and not state["any"]:
+                    ds[0].armed = True
+                    tap("extra")
+                    state["extra_reg"] = True
                 if not state["any"]:
                     state["any"] = True
                     registered.extend(op[1])
@@ -151,7 +175,7 @@ def run_seq(rc, ops):
                             "a logging / registration call raised %s: %s" % (type(ex).__name__, str(ex)[:300]))
     finally:
         seams.end_run()
-    for i, t in sorted(taps.items()):
+    for i, t in sorted(taps.items(), key=lambda kv: str(kv[0])):
         got = [(r.msg.get("nid"), r.msg) for r in t.records]
         want = expect[i]
         gn = [n for n, _m in got]
@@ -160,14 +184,14 @@ def run_seq(rc, ops):
             k2 = next((j for j in range(min(len(gn), len(wn))) if gn[j] != wn[j]), min(len(gn), len(wn)))
             how = "lost" if len(gn) < len(wn) else ("extra" if len(gn) > len(wn) else "order")
             raise Violation(("delivery", {"how": how}),
-                            "destination d%d received %d messages, expected %d; first difference at index %d: "
+                            "destination d%s received %d messages, expected %d; first difference at index %d: "
                             "got nid %s, expected nid %s" % (i, len(gn), len(wn), k2,
                                                              gn[k2] if k2 < len(gn) else None,
                                                              wn[k2] if k2 < len(wn) else None))
         for (n, m), (_n, gl) in zip(got, want):
             for key, val in gl.items():
                 if key not in m or canon(m[key]) != canon(val):
-                    raise Violation("global_fields", "message nid=%s delivered to d%d with %s=%r, global fields "
+                    raise Violation("global_fields", "message nid=%s delivered to d%s with %s=%r, global fields "
                                     "at delivery were %r" % (n, i, key, m.get(key), gl))
 
 
@@ -179,6 +203,7 @@ def run_threads(rc, cfg):
     rc.sched = s
     rc.clock = seams.begin_run(rc.seed)
     taps = [Tap(rc, "first%d" % i, deep=True) for i in range(cfg["n_first"])]
+    phase2 = {}
     returned = {}          # nid -> stamp at which the logging call returned
     started = {}
     add_done = {}
@@ -220,6 +245,19 @@ def run_threads(rc, cfg):
         for a in actors:
             s.yield_point("join")
             s.join(a)
+        if cfg.get("phase2") and len(taps) >= 2:
+            # registration changes from two threads at once: neither may be lost
+            rc.probe("concurrent_add_and_remove")
+            late = Tap(rc, "late", deep=True)
+            phase2["late"] = late
+            phase2["removed"] = taps[0]
+            ra = s.spawn("remover", lambda: e.remove_destination(taps[0]))
+            aa = s.spawn("adder2", lambda: e.add_destinations(late))
+            for a in (ra, aa):
+                s.yield_point("join")
+                s.join(a)
+            phase2["marker"] = 10 ** 6
+            e.log_message(message_type="c12", nid=phase2["marker"])
 
     try:
         try:
@@ -236,6 +274,17 @@ def run_threads(rc, cfg):
         if a.exc is not None:
             raise Violation(("raised", {"exc": type(a.exc).__name__}),
                             "thread %s raised %r" % (a.name, a.exc))
+    if phase2:
+        mk = phase2["marker"]
+        for t in taps[1:] + [phase2["late"]]:
+            if [r.msg.get("nid") for r in t.records].count(mk) != 1:
+                raise Violation(("registration_lost", {"which": "added" if t is phase2["late"] else "kept"}),
+                                "after a concurrent remove_destination/add_destinations, destination %s did not "
+                                "receive the next message exactly once" % t.name)
+        if mk in [r.msg.get("nid") for r in phase2["removed"].records]:
+            raise Violation(("registration_lost", {"which": "removed"}), "the removed destination still received a message")
+        for t in taps + [phase2["late"]]:
+            t.records[:] = [r for r in t.records if r.msg.get("nid") != mk]
     for t in taps:
         got = [r.msg.get("nid") for r in t.records]
         counts = {}
@@ -272,6 +321,7 @@ def draw_cfg(st):
     if world == "seq":
         cfg["n_ops"] = 5 + st.choose(56, "n_ops")
         cfg["bulk"] = st.choose(7, "bulk") == 6
+        cfg["reentrant_add"] = st.choose(4, "reentrant_add") == 3
     else:
         cfg["n_loggers"] = 1 + st.choose(2, "n_loggers")
         cfg["per_logger"] = 1 + st.choose(5, "per_logger")
@@ -279,6 +329,7 @@ def draw_cfg(st):
         cfg["n_first"] = 1 + st.choose(2, "n_first")
         cfg["adder_delay"] = st.choose(4, "adder_delay")
         cfg["p_switch"] = [0.15, 0.05, 0.4][st.choose(3, "p_switch")]
+        cfg["phase2"] = bool(st.choose(2, "phase2"))
     return cfg
 
 
